@@ -205,6 +205,10 @@ CRASH_RE = re.compile(r"^(panic: |fatal error: |WARNING: DATA RACE)", re.M)
 def classify_failures(prop, results, merged):
     """Returns (violations [(kind, replay path)], inconclusive reasons)."""
     viol, inconc = [], []
+    # the replay directory of the property was emptied before the run: every file in it is fresh
+    for f in sorted(glob.glob(os.path.join(REPLAY, prop, "*.json"))):
+        if f not in merged["replay_files"]:
+            merged["replay_files"].append(f)
     for f in merged["replay_files"]:
         viol.append(("case", f))
     for rc, out, logf, seed, checks in results:
@@ -254,7 +258,7 @@ def run_fuzz(prop, targets, base_seed):
         env = dict(GOENV)
         env["VERIF_FUZZ"] = "1"
         cmd = ["go", "test", "-run", "^$", "-fuzz", "^%s$" % name, "-fuzztime", "%ds" % secs,
-               "-test.fuzzcachedir", os.path.join(WORK, "fuzzcache"), "./props"]
+               "./props"]
         try:
             r = run(cmd, cwd=HARNESS, env=env, timeout=secs + 600)
         except subprocess.TimeoutExpired:
@@ -425,7 +429,7 @@ def replay(prop, path):
     print(r.stdout[-4000:])
     if "REPLAY-PASS" in r.stdout and r.returncode == 0:
         return 0
-    if "REPLAY-FAIL" in r.stdout or CRASH_RE.search(r.stdout):
+    if "REPLAY-FAIL" in r.stdout or "WATCHDOG property=" in r.stdout or CRASH_RE.search(r.stdout):
         print("VIOLATION property=%s replay=%s" % (prop, path))
         return 1
     return 2
